@@ -5,7 +5,7 @@ root = os.path.dirname(os.path.dirname(os.path.abspath(__file__)))
 tier = "thorough" if "--thorough" in sys.argv else "quick"
 ids = [a for a in sys.argv[1:] if not a.startswith("--")] or open(os.path.join(root, "tools", "claimed.txt")).read().split()
 bad = 0
-for pid in sorted(ids):
+for pid in (ids if "--keep-order" in sys.argv else sorted(ids)):
     t0 = time.time()
     r = subprocess.run(["/venv/bin/python", "-m", "vf", "check", pid, "--tier", tier, "--quiet"], cwd=root, capture_output=True, text=True)
     try:
